@@ -34,6 +34,13 @@ def label_variants(spec):
         ids = [("x%d" % i if i % 2 else 100 - i) for i in range(len(simp))]
         out.append(("explicit-ids", F.S([sorted(s) for s in simp], nodes=list(nodes), ids=ids)))
     out.append(("reversed", F.relabel(spec, reverse_nodes=True, reverse_members=True)))
+    # only the generating simplices given, under explicit integer IDs in decreasing order (the faces get automatic IDs
+    # during construction), as a dict and as (members, id) pairs
+    m = len(spec["edges"])
+    if m:
+        out.append(("generators-decreasing-ids", F.relabel(spec, edge_ids=[3 * (m - i) + 1 for i in range(m)])))
+        out.append(("generators-bulk-dict", dict(F.relabel(spec, edge_ids=[2 * (m - i) for i in range(m)]), bulk="dict")))
+        out.append(("generators-bulk-pairs", dict(F.relabel(spec, edge_ids=[2 * (m - i) for i in range(m)]), bulk="pairs")))
     # numeric labels of several types inside one simplex (ints with larger and smaller floats, numpy with python ints):
     # every branch must order the vertices of a simplex the same way
     srt = sorted(nodes)
@@ -173,15 +180,40 @@ def check_complex(S, cap):
 _CAP = 8
 
 
+def _build(spec):
+    """F.build, or - for specs marked bulk - one bulk call that hands over all generating simplices with their IDs."""
+    import xgi
+
+    how = spec.get("bulk")
+    if not how:
+        return F.build(spec)
+    S = xgi.SimplicialComplex()
+    S.add_nodes_from(spec["nodes"])
+    if how == "dict":
+        S.add_simplices_from({i: list(m) for i, m in spec["edges"]})
+    else:
+        S.add_simplices_from([(list(m), i) for i, m in spec["edges"]])
+    return S
+
+
 def _work(item):
     kind, spec = item
     with warnings.catch_warnings():
         warnings.simplefilter("ignore")
-        S = F.build(spec)
+        S = _build(spec)
+        # the complex under test must be the one that was asked for: every generating simplex and each of its faces
+        pre = []
+        want = {x for x in closure([m for _, m in spec["edges"]]) if len(x) >= 2}
+        got = {frozenset(m) for m in S.edges.members() if len(m) >= 2}
+        if got != want:
+            pre.append(("construction", f"the complex built from {[m for _, m in spec['edges']]} (IDs {[i for i, _ in spec['edges']]}) holds "
+                        f"{sorted(map(sorted, got), key=repr)[:12]}; missing {sorted(map(sorted, want - got), key=repr)[:6]}, "
+                        f"unexpected {sorted(map(sorted, got - want), key=repr)[:6]}", {}))
         if kind == "big":
             n, v = check_complex(S, -1)
-            return {"n": n, "viols": [(m, msg, ori, kind, spec) for m, msg, ori in v]}
+            return {"n": n, "viols": [(m, msg, ori, kind, spec) for m, msg, ori in pre + list(v)]}
         n, v = check_complex(S, _CAP)
+        v = pre + list(v)
         F.detour(S)  # a maximal simplex removed and re-added under its ID: same complex, different history
         F.morph(S)  # a maximal two-node simplex re-pointed: different complex, same counts
         n2, v2 = check_complex(S, 4)
